@@ -156,6 +156,17 @@ func rewriteList(list []ast.Stmt) ([]ast.Stmt, bool) {
 	return out, changed
 }
 
+// listensOnNet reports whether the file opens a network listener through package net (those
+// files get the vnet shim, so the real accept loop runs on an in-memory listener).
+func listensOnNet(path string) bool {
+	src, err := os.ReadFile(path)
+	if err != nil {
+		return false
+	}
+	t := string(src)
+	return strings.Contains(t, "net.ListenTCP(") || strings.Contains(t, "net.Listen(")
+}
+
 func instrument(path string) ([]byte, bool, error) {
 	f, err := parser.ParseFile(fset, path, nil, parser.ParseComments)
 	if err != nil {
@@ -163,7 +174,7 @@ func instrument(path string) ([]byte, bool, error) {
 	}
 	changed := false
 	for _, imp := range f.Imports {
-		if imp.Path.Value == `"net"` && strings.HasSuffix(path, "listener.go") {
+		if imp.Path.Value == `"net"` && listensOnNet(path) {
 			imp.Path.Value = strconv.Quote("github.com/inbucket/inbucket/v3/pkg/vrt/vnet")
 			imp.Name = ast.NewIdent("net")
 			changed = true
